@@ -119,6 +119,8 @@ impl OutputFormat for Artworx {
         loop {
             for _ in 0..result.get_width() {
                 if o + 2 > file_size {
+                    // the buffer was created with 25 rows: drop the ones the picture does not have
+                    result.layers[0].lines.truncate((pos.y + i32::from(pos.x > 0)).max(1) as usize);
                     crate::crop_loaded_file(&mut result);
                     return Ok(result);
                 }
